@@ -84,7 +84,7 @@ var shapes = []string{
 }
 
 // array shapes are drawn as often as scalar ones
-var shapeWeights = []int{0, 1, 2, 3, 8, 9, 11, 12, 13, 4, 4, 5, 5, 6, 6, 7, 10, 10}
+var shapeWeights = []int{4, 0, 5, 1, 6, 2, 7, 3, 10, 8, 4, 9, 5, 11, 6, 12, 10, 13}
 
 type Case struct {
 	Shape  int      `json:"shape"`
